@@ -3,6 +3,7 @@
 //! the result of every operation, and the outcome of the whole run.
 
 mod interp;
+mod num;
 mod prog;
 
 use interp::{out, OUT};
@@ -191,6 +192,16 @@ fn main() {
                 }
                 writeln!(o, "DONE {}", n).unwrap();
                 o.flush().unwrap();
+            }
+        }
+        "num" => {
+            let f = std::fs::File::open(file).expect("open cases file");
+            for line in std::io::BufReader::new(f).lines() {
+                let line = line.unwrap();
+                if line.trim().is_empty() || line.starts_with('#') {
+                    continue;
+                }
+                println!("{}", num::run_case(&line));
             }
         }
         _ => {
